@@ -11,7 +11,7 @@ RULE = ("seeded random straight-line kernels over several specs (zones that are 
         "invalid static-trap lookups, sub_grid with ascending / repeated / unsorted / out-of-order index lists, slicing and "
         "integer indexing, views of views, shifts/scales (fallback), non-grid values, aliases, plus the same code inside "
         "branches; each kernel compiled unfolded (@move) and with the spec folded in (@move(arch_spec=...)); the entries of "
-        "ZoneAnalysis(...).run_analysis are compared with the model's abstract values (unfolded) and, on both variants, checked "
+        "ZoneAnalysis(...).run_analysis (and the hints HintZone leaves after the kernel had been hinted for a different spec first) are compared with the model's abstract values (unfolded) and, on both variants, checked "
         "against the per-SSA run-time values recorded by an instrumented spec interpreter. "
         "non-trivial = kernel with a view of a named zone; distinct = distinct (kernel, spec, variant).")
 TRUSTED = ["modelled, not verified: kirin's Forward analysis driver, bloqade-geometry Grid/SubGrid (Model/Grid.lean), Layout index (C13)"]
@@ -35,7 +35,9 @@ def specs():
     L_ = A.get_view([0, 2], [0, 1, 2])          # a zone that is a view of another zone
     B = Grid.from_positions([30.0, 31.0, 33.0], [1.0, 4.0])
     S = Grid.from_positions([-5.0, -4.0], [7.5, 8.0])
-    s0 = ArchSpec(layout=Layout({"A": A, "L": L_, "B": B}, {"A"}, {"A"}, {"A"}, special_grid={"S": S}))
+    # rows of M + columns of A = a grid with A's footprint and shape but a different interior (and no zone)
+    M = Grid.from_positions([40.0, 44.0], [0.0, 5.0, 20.0])
+    s0 = ArchSpec(layout=Layout({"A": A, "L": L_, "B": B, "M": M}, {"A"}, {"A"}, {"A"}, special_grid={"S": S}))
     C = Grid.from_positions([0.0, 1.0, 2.0], [0.0, 1.0, 2.0])
     s1 = ArchSpec(layout=Layout({"A": C, "B": B}, {"A"}, {"A"}, {"A"}))
     return [s0, s1]
@@ -52,6 +54,13 @@ def gen_program(rng, spec):
     n0 = rng.choice(names)
     prog.append(("trap", n0))
     grids[0] = shapes[n0]
+    if len(names) > 1 and rng.random() < 0.3:
+        # a grid made of one zone's columns and another zone's rows: it may share a zone's origin, extent and shape
+        n1 = rng.choice([n for n in names if n != n0])
+        prog.append(("trap", n1))
+        grids[1] = shapes[n1]
+        prog.append(("fp", 0, 1))
+        grids[2] = (shapes[n0][0], shapes[n1][1])
     for _ in range(rng.randrange(2, 9)):
         r = rng.random()
         gi = rng.choice(list(grids)) if grids else None
@@ -91,7 +100,11 @@ def gen_program(rng, spec):
         elif r < 0.82 and gi is not None:
             prog.append(("op", gi, rng.choice([0, 1, 2]) * 0.5, rng.choice([0, -1]) * 1.0))
             grids[len(prog) - 1] = grids[gi]
-        elif r < 0.90 and gi is not None:
+        elif r < 0.87 and gi is not None and len(grids) > 1:
+            gj = rng.choice(list(grids))
+            prog.append(("fp", gi, gj))        # a grid built from the columns of one grid and the rows of another
+            grids[len(prog) - 1] = (grids[gi][0], grids[gj][1])
+        elif r < 0.92 and gi is not None:
             prog.append(("shape", gi))
             if rng.random() < 0.5:
                 prog.append(("itemother", len(prog) - 1))
@@ -125,6 +138,8 @@ def source(prog, opts):
             lines.append(f"    v{i} = v{st[1]}[{src_index(st[2])}, {src_index(st[3])}]")
         elif k == "op":
             lines.append(f"    v{i} = grid.shift(v{st[1]}, {st[2]!r}, {st[3]!r})")
+        elif k == "fp":
+            lines.append(f"    v{i} = grid.from_positions(grid.get_xpos(v{st[1]}), grid.get_ypos(v{st[2]}))")
         elif k == "shape":
             lines.append(f"    v{i} = grid.shape(v{st[1]})")
         elif k == "itemother":
@@ -147,7 +162,7 @@ def wire_prog(prog):
             continue
         if k == "trap":
             out.append(("trap", st[1]))
-        elif k == "special":
+        elif k in ("special", "fp"):
             out.append(("op", 0, 0, 0))        # a grid-typed result without a method table: fallback (top)
         elif k == "sub":
             out.append(("sub", idx[st[1]], st[2], st[3]))
@@ -246,6 +261,23 @@ def run(ctx):
                 continue
             mt = mod.kern
             frame, _ = ZoneAnalysis(mt.dialects, arch_spec=spec).run_analysis(mt)
+            entries = dict(frame.entries)
+            # the hints the HintZone pass leaves on the kernel, after it had been hinted for another spec first
+            if variant == "unfolded":
+                from bloqade.shuttle.passes.hint_zone import HintZone
+                HintZone(mt.dialects, arch_spec=sps[(pi + 1) % len(sps)])(mt)
+                HintZone(mt.dialects, arch_spec=spec)(mt)
+                from kirin import ir as _ir
+                for ssa, z in frame.entries.items():
+                    if not isinstance(ssa, _ir.ResultValue):
+                        continue        # the pass hints statement results only
+                    h = ssa.hints.get("zone.analysis")
+                    ctx.count("pass_hints_checked")
+                    if h is None or canon_zone(h) != canon_zone(z):
+                        ctx.fail({"source": src[len(HDR):], "spec": f"s{pi % len(sps)}", "value": str(getattr(ssa, "name", None))},
+                                 f"HintZone(spec) leaves hint {canon_zone(h) if h is not None else None} where the analysis for that spec says {canon_zone(z)}")
+                        if h is not None:
+                            entries[ssa] = h
             it = Rec(mt.dialects, arch_spec=spec)
             it.recorded = {}
             try:
@@ -256,7 +288,7 @@ def run(ctx):
             ctx.seen((src, pi % len(sps), variant), any(s[0] in ("sub", "item") for s in prog))
             ctx.count("kernels_" + variant)
             # ---- oracle: every hint against the recorded run-time value ---------------------
-            for ssa, z in frame.entries.items():
+            for ssa, z in entries.items():
                 if ssa not in it.recorded:
                     if False:
                         pass
